@@ -1,6 +1,14 @@
 import Np.Proofs.Dispatch
 import Np.Model.Construct
 import Np.Proofs.Construct
+import Np.Proofs.Sub
+import Np.Proofs.GradArr
+import Np.Proofs.Gather
+import Np.Proofs.Reduce
+import Np.Proofs.CompareArr
+import Np.Proofs.Dims
+import Np.Proofs.CallArr
+import Np.Proofs.DetPoly
 /-! C03 — results are well-formed and regenerate from their attributes: property theorems -/
 namespace Np.Props.C03
 open MvPolynomial
@@ -129,5 +137,56 @@ theorem regenerate_identity (p : Poly S) (hw : WF p) (hne : p.terms ≠ []) :
     regenerate true true p = some p := regenerate_retain p hw hne
 theorem regenerate_clean_fixed (rc rn : Bool) (p : Poly S) (hw : WF p) (hne : p.terms ≠ [])
     (hcl : clean rc rn p = p) : regenerate rc rn p = some p := regenerate_fixed rc rn p hw hne hcl
+
+/-! ### the invariant is preserved by every operation of the model (induction step of "every polynomial array the
+library returns is well-formed"; base case: the constructor, `fromAttributes_wellformed`) -/
+section closure
+open Shape
+
+/-- ring arithmetic, cleaning and alignment keep well-formedness — every retain flag setting -/
+theorem closed_arith {S : Type} [CommRing S] [BEq S] [LawfulBEq S] (rc rn : Bool) (a b : Poly S) (ha : WF a) (hb : WF b) :
+    WF (add rc rn a b) ∧ WF (sub rc rn a b) ∧ WF (neg rc rn a) ∧ WF (clean rc rn a) ∧
+    (∃ r, multiply rc rn a b = some r ∧ WF r) ∧ (∀ k : Nat, ∃ r, powS rc rn a k = some r ∧ WF r) ∧
+    (∀ common : List Name, common.Nodup → (∀ n ∈ a.names, n ∈ common) → WF (alignIndet common a)) :=
+  ⟨WF_add rc rn a b ha hb, (sub_den_WF rc rn a b ha hb).2, (neg_den_WF rc rn a ha).2, WF_clean rc rn a ha,
+    (let ⟨r, h1, _, h3⟩ := mul_den_WF rc rn a b ha hb; ⟨r, h1, h3⟩),
+    (fun k => let ⟨r, h1, _, h3⟩ := pow_den_WF rc rn a ha k; ⟨r, h1, h3⟩),
+    fun common hc hsub => WF_alignIndet common a ha hc hsub⟩
+
+/-- differentiation keeps it (exponents below 2³², as the uint32 storage guarantees) -/
+theorem closed_calculus {R : Type} [CommSemiring R] [BEq R] [LawfulBEq R] {n : Nat} (rc rn : Bool) (j : Nat)
+    (p : Poly (Vec R n)) (hw : WF p) (hb : Bdd p) :
+    WF (derivative rn j p) ∧ WF (gradient rc rn p) ∧ WF (hessianOf rc rn p) :=
+  ⟨(derivative_WF rn j p hw hb).1, WF_gradient rc rn p hw hb, WF_hessianOf rc rn p hw hb⟩
+
+/-- shape functions, reductions, selection, dimension changes and decomposition keep it -/
+theorem closed_arrays {R : Type} [CommSemiring R] [BEq R] [LawfulBEq R] (rc rn : Bool) (a b : Arr R) (ha : a.WF)
+    (hb : b.WF) (outShape idx : List Nat) (W : List (List (Nat × R))) (pairs : List (List Nat × List Nat))
+    (groups : List (List Nat)) :
+    (gatherOp rc rn [a, b] outShape idx).WF ∧ (linearOp rc rn a outShape W).WF ∧
+    (∃ r : Arr R, bilinearOp rc rn a b outShape pairs = some r ∧ r.WF) ∧
+    (∃ r : Arr R, prodOp rc rn a outShape groups = some r ∧ r.WF) ∧ WF (decompose a.poly) ∧
+    (∀ (newNames : List Name), newNames.Nodup → a.poly.names ⊆ newNames → WF (setDimsAdd rc newNames a.poly)) ∧
+    (∀ d : Nat, d ≤ a.poly.names.length → WF (setDimsDrop rc d a.poly)) :=
+  ⟨(gatherOp_WF rc rn [a, b] (fun x hx => by
+      simp only [List.mem_cons, List.not_mem_nil, or_false] at hx
+      rcases hx with rfl | rfl
+      · exact ha
+      · exact hb) outShape idx).1,
+    linearOp_WF rc rn a ha outShape W,
+    (let ⟨r, h1, h2, _⟩ := bilinearOp_elem rc rn a b ha hb outShape pairs; ⟨r, h1, h2⟩),
+    (let ⟨r, h1, h2, _⟩ := prodOp_elem rc rn a ha outShape groups; ⟨r, h1, h2⟩),
+    WF_decompose a.poly ha,
+    fun newNames hn hsub => WF_setDimsAdd rc newNames a.poly ha hn hsub,
+    fun d hd => WF_setDimsDrop rc d a.poly ha hd⟩
+
+/-- `where`, `maximum`, `minimum` keep it -/
+theorem closed_select {R : Type} [CommSemiring R] [BEq R] [LawfulBEq R] {n : Nat} (lt : R → R → Bool)
+    (rc rn graded reverse : Bool) (mask : Vec Bool n) (a b : Poly (Vec R n)) (ha : WF a) (hb : WF b) :
+    WF (selectArr rc rn mask a b) ∧ WF (maximumArr lt rc rn graded reverse a b) ∧
+      WF (minimumArr lt rc rn graded reverse a b) :=
+  ⟨WF_selectArr rc rn mask a b ha hb, WF_maximumArr lt rc rn graded reverse a b ha hb,
+    WF_minimumArr lt rc rn graded reverse a b ha hb⟩
+end closure
 
 end Np.Props.C03
